@@ -1,5 +1,5 @@
 (* Props/C06.v — Convolution and pooling output shapes are arithmetically exact. *)
-From NIR Require Import Model.Shapes Proofs.ShapesProofs.
+From NIR Require Import Model.Graph Proofs.ShapesProofs Proofs.NodesProofs.
 
 (* The closed formula equals the NUMBER OF POSITIONS at which the dilated kernel fits inside the
    zero-padded input when stepped by the stride — for all sizes (Z, no bound). *)
@@ -52,6 +52,49 @@ Theorem c06_forms_scalar :
     index_tuple (HSeq (repeat z m)) i = index_tuple (HInt z) i.
 Proof. exact index_tuple_scalar. Qed.
 
+(* ---- node level ---- *)
+(* Conv2d typed at construction: input = (C_in; spatial input); output = (C_out; the formula per
+   axis with the kernel size OF THAT AXIS, weight.shape[2:]) *)
+Theorem c06_conv2d_types :
+  forall dt tok wi (co ci k1 k2 : Z) ish pad dil stride groups bias sp out,
+    pad_is_bad_string pad = false -> seq_view ish = Some sp ->
+    conv_out (hp_of ish) (hp_of (pair_if_int pad)) (hp_of (pair_if_int dil)) (HSeq [k1; k2])
+             (hp_of (pair_if_int stride)) = Ok out ->
+    exists fs,
+      construct KConv2d [("input_shape", ish); ("weight", VArr dt [co; ci; k1; k2] tok wi);
+                         ("stride", stride); ("padding", pad); ("dilation", dil);
+                         ("groups", groups); ("bias", bias)] =
+      Ok (Leaf KConv2d fs (arr_ty "input" (ci :: sp)) (arr_ty "output" (co :: out))).
+Proof. exact conv2d_types. Qed.
+
+Theorem c06_conv1d_types :
+  forall dt tok wi (co ci k : Z) ish n pad dil stride groups bias out,
+    pad_is_bad_string pad = false -> ish <> VNone -> int_view ish = Some n ->
+    conv_out (HInt n) (hp_of pad) (hp_of dil) (HInt k) (hp_of stride) = Ok out ->
+    exists fs,
+      construct KConv1d [("input_shape", ish); ("weight", VArr dt [co; ci; k] tok wi);
+                         ("stride", stride); ("padding", pad); ("dilation", dil);
+                         ("groups", groups); ("bias", bias)] =
+      Ok (Leaf KConv1d fs (arr_ty "input" [ci; n]) (arr_ty "output" (co :: out))).
+Proof. exact conv1d_types. Qed.
+
+(* and conv_out on explicit per-axis values is the formula applied axis by axis *)
+Theorem c06_per_axis :
+  forall n1 n2 p1 p2 d1 d2 k1 k2 s1 s2 : Z, s1 <> 0 -> s2 <> 0 ->
+    conv_out (HSeq [n1; n2]) (HSeq [p1; p2]) (HSeq [d1; d2]) (HSeq [k1; k2]) (HSeq [s1; s2]) =
+    Ok [conv_axis n1 p1 d1 k1 s1; conv_axis n2 p2 d2 k2 s2].
+Proof. exact conv_out_pairs. Qed.
+
+(* pooling typed by inference: channel copied, dilation 1 *)
+Theorem c06_infer_pool :
+  forall (k : kind) fs (c : Z) (sp out : list Z) (ks stride pad : pval),
+    k = KSumPool2d \/ k = KAvgPool2d ->
+    fld "kernel_size" fs = Ok ks -> fld "stride" fs = Ok stride -> fld "padding" fs = Ok pad ->
+    conv_out (HArr sp) (hp_of pad) (HInt 1) (hp_of ks) (hp_of stride) = Ok out ->
+    derive_output k fs [("output", TArr (c :: sp))] [("input", TArr (c :: sp))] =
+    (fs, Some [("output", TArr (c :: out))], None).
+Proof. exact pool_infer. Qed.
+
 (* non-vacuity: 32x30 input, 3x5 kernel, stride 2, padding 1, dilation 1 *)
 Example c06_example :
   conv_out (HSeq [32; 30]) (HInt 1) (HArr [1; 1]) (HSeq [3; 5]) (HInt 2) = Ok [16; 14]
@@ -66,3 +109,7 @@ Print Assumptions c06_same_keeps_size.
 Print Assumptions c06_same_agrees_with_formula.
 Print Assumptions c06_forms_seq_arr.
 Print Assumptions c06_forms_scalar.
+Print Assumptions c06_conv2d_types.
+Print Assumptions c06_conv1d_types.
+Print Assumptions c06_per_axis.
+Print Assumptions c06_infer_pool.
